@@ -151,6 +151,14 @@ def run(rep):
             ok = a in delays and b in delays and sp.simplify(delays[a] - delays[b]) == 0
             rep.ob("R-C14-siblings", "%s/%s" % (a, b), ok, "FixedIn and FixedOut variants of one algorithm report the same delay formula", "src/")
     rep.guarded("R-C14-siblings", siblings)
+    # "following the README recipe": the recipe drives the resampler through process / process_partial, so the frames it counts are
+    # the frames the wrappers return (exactly those the core call reports, nothing appended) - shared with C16
+    import C16
+    rep.guarded("R-C16-process", C16.rule_process)
+    rep.guarded("R-C16-partial", C16.rule_partial)
+    rep.floor("R-C16-process", 12)
+    rep.floor("R-C16-partial", 5)
+    rep.clause("R-C16-process / R-C16-partial", "the allocating wrappers return exactly the frames the core call reports (the recipe skips and keeps frame counts of these streams): shared with C16")
     rep.floor("R-C14-model", 1 + 1 + 4 + 1 + 3)
     rep.floor("R-C14-siblings", 2)
     rep.clause("R-C14-model", "per type, output_delay() is consistent with where the stream starts: reported/ratio = −(initial read position + kernel centre offset) for the asynchronous types "
